@@ -226,7 +226,11 @@ class Check:
         result is a pure function of (MIR hash of /repo + harness sources, harness, configuration), so it is stored under that key and
         reused by the other checks of the same source state; any edit to /repo or the harness changes the hash and forces a new run."""
         import pickle
-        key = hashlib.sha256(json.dumps([P.mir_hash, harness, cfg.get('env'), cfg.get('step_budget'), time_cap, max_paths], sort_keys=True, default=str).encode()).hexdigest()[:20]
+        eh = hashlib.sha256()
+        for fn in sorted(os.listdir(os.path.join(VERIF, 'mirsym'))):
+            if fn.endswith('.py'):
+                eh.update(open(os.path.join(VERIF, 'mirsym', fn), 'rb').read())
+        key = hashlib.sha256(json.dumps([eh.hexdigest(), P.mir_hash, harness, cfg.get('env'), cfg.get('step_budget'), time_cap, max_paths], sort_keys=True, default=str).encode()).hexdigest()[:20]
         d = os.path.join(VERIF, '.cache', 'results')
         os.makedirs(d, exist_ok=True)
         path = os.path.join(d, '%s-%s.pkl' % (harness, key))
